@@ -1,11 +1,15 @@
-// c07skel — extracts the ORDER OF THE DECISION STEPS of the DNS controller's request path from the Go
-// source (go/ast, no type checking) and prints it as a Lean file.  The C07 model's controller skeleton
-// (`handle`, `dialSend`, `handleOpt` in lean/DaeVerif/C07/Model.lean) was written against exactly this
-// order; `Props.controller_steps_as_modelled` compares the two lists, so a re-ordered, removed or added
-// step in the real code breaks the build of the proof module (reported as a broken proof) even when no
-// generated input happens to show a behavioural difference.
+// c07skel — extracts the DECISIVE ORDER FACTS of the DNS controller's request path from the Go source
+// (go/ast, no type checking) and prints them as a Lean list.  The C07 model's controller skeleton
+// (`handle`, `dialSend`, `handleOpt` in lean/DaeVerif/C07/Model.lean) was written against these facts;
+// lean/DaeVerif/C07/Gen/Skeleton.lean is a SNAPSHOT of this program's output for the tree the model was
+// written against (Props.controller_steps_as_modelled compares it with the model's list) and
+// checks/c07.py compares the output for the tree under test with that snapshot on every run.
 //
-// usage: go run main.go <repo>/control > Skeleton.lean
+// Only the order of the decisive steps and the identity (by position / data flow, not by spelling) of the
+// arguments that matter are facts: renamed locals, `!(d < Max)` for `d >= Max`, added logging, an extra or
+// removed cache re-read do not change the output.
+//
+// usage: go run main.go <repo>/control [-detail]
 package main
 
 import (
@@ -30,10 +34,8 @@ func text(n ast.Node) string {
 func callName(c *ast.CallExpr) string {
 	switch f := c.Fun.(type) {
 	case *ast.SelectorExpr:
-		if x, ok := f.X.(*ast.SelectorExpr); ok {
-			if q := x.Sel.Name + "." + f.Sel.Name; stepCalls[q] != "" { // c.sf.Do
-				return q
-			}
+		if x, ok := f.X.(*ast.SelectorExpr); ok && x.Sel.Name == "sf" && f.Sel.Name == "Do" {
+			return "sf.Do"
 		}
 		return f.Sel.Name
 	case *ast.Ident:
@@ -42,110 +44,262 @@ func callName(c *ast.CallExpr) string {
 	return ""
 }
 
-// the vocabulary: calls that are decision steps of the request path
-var stepCalls = map[string]string{
-	"RequestSelect":                 "route-request",
-	"RemoveDnsRespCacheFamily":      "remove-cache-family",
-	"sendRejectWithResponseWriter_": "answer-empty",
-	"LookupDnsRespCache_":           "cache-lookup",
-	"backgroundRefresh":             "background-refresh",
-	"writeCachedResponse":           "reply-from-cache",
-	"sf.Do":                         "singleflight",
-	"resolveForSingleflight":        "resolve",
-	"handleWithResponseWriterInternal": "internal-path",
-	"handleWithResponseWriter_":     "handle-routed",
-	"forwardWithFallback":           "forward",
-	"dnsResponseAnswersRequest":     "question-check",
-	"ResponseSelect":                "route-response",
-	"NormalizeAndCacheDnsResp_":     "store",
-	"WriteMsg":                      "reply",
-	"sendRuntimeTrackedPkt":         "reply-packet",
+type event struct {
+	kind string
+	call *ast.CallExpr
+	node ast.Node
 }
 
-func steps(fn *ast.FuncDecl) []string {
-	var out []string
+// events of a function body in source order
+func events(fn *ast.FuncDecl) []event {
+	var out []event
 	ast.Inspect(fn.Body, func(n ast.Node) bool {
 		switch x := n.(type) {
 		case *ast.CallExpr:
-			name := callName(x)
-			if name == fn.Name.Name && len(x.Args) >= 6 { // the recursive re-ask of dialSend
-				out = append(out, "reask("+text(x.Args[1])+","+text(x.Args[5])+")")
-				return true
-			}
-			if name == "dialSend" && len(x.Args) >= 9 {
-				out = append(out, "dialSend(depth="+text(x.Args[1])+",upstream="+text(x.Args[5])+",key="+text(x.Args[len(x.Args)-2])+")")
-				return true
-			}
-			if s, ok := stepCalls[name]; ok {
-				if s == "store" && len(x.Args) == 2 {
-					s += "(" + text(x.Args[1]) + ")"
-				}
-				if s == "singleflight" && len(x.Args) >= 1 {
-					s += "(" + text(x.Args[0]) + ")"
-				}
-				out = append(out, s)
-			}
+			out = append(out, event{kind: "call:" + callName(x), call: x, node: x})
 		case *ast.BinaryExpr:
 			t := text(x)
-			switch {
-			case strings.Contains(t, "DnsRequestOutboundIndex_Reject") && x.Op == token.EQL:
-				out = append(out, "if-routed-to-reject")
-			case strings.Contains(t, "MaxDnsLookupDepth"):
-				out = append(out, "depth-guard("+t+")")
+			if strings.Contains(t, "DnsRequestOutboundIndex_Reject") && (x.Op == token.EQL) {
+				out = append(out, event{kind: "reject-test", node: x})
+			}
+			if strings.Contains(t, "MaxDnsLookupDepth") && (x.Op == token.GEQ || x.Op == token.LEQ || x.Op == token.LSS || x.Op == token.GTR) {
+				out = append(out, event{kind: "depth-guard", node: x})
 			}
 		case *ast.CaseClause:
 			for _, e := range x.List {
 				t := text(e)
-				if strings.HasSuffix(t, "DnsResponseOutboundIndex_Accept") {
-					out = append(out, "case-accept")
+				if strings.HasSuffix(t, "DnsRequestOutboundIndex_Reject") {
+					out = append(out, event{kind: "reject-test", node: x})
 				}
 				if strings.HasSuffix(t, "DnsResponseOutboundIndex_Reject") {
-					out = append(out, "case-reject")
+					out = append(out, event{kind: "case-response-reject", node: x})
 				}
 			}
 		case *ast.AssignStmt:
-			if len(x.Lhs) == 1 && text(x.Lhs[0]) == "respMsg.Answer" && text(x.Rhs[0]) == "nil" {
-				out = append(out, "empty-answer-section")
+			if len(x.Lhs) == 1 && len(x.Rhs) == 1 && strings.HasSuffix(text(x.Lhs[0]), ".Answer") && text(x.Rhs[0]) == "nil" {
+				out = append(out, event{kind: "empty-answer", node: x})
 			}
-		case *ast.ReturnStmt:
-			// returns are not steps
 		}
 		return true
 	})
 	return out
 }
 
+func first(ev []event, kind string) int {
+	for i, e := range ev {
+		if e.kind == kind {
+			return i
+		}
+	}
+	return -1
+}
+
+func ordered(ev []event, kinds ...string) bool {
+	last := -1
+	for _, k := range kinds {
+		i := first(ev, k)
+		if i < 0 || i <= last {
+			return false
+		}
+		last = i
+	}
+	return true
+}
+
+func paramNames(fn *ast.FuncDecl) []string {
+	var l []string
+	for _, f := range fn.Type.Params.List {
+		for _, n := range f.Names {
+			l = append(l, n.Name)
+		}
+	}
+	return l
+}
+
+// the name a call's result is assigned to (k-th left-hand side), searched in the function body
+func assignedFrom(fn *ast.FuncDecl, callee string, k int) string {
+	name := ""
+	ast.Inspect(fn.Body, func(n ast.Node) bool {
+		if a, ok := n.(*ast.AssignStmt); ok && len(a.Rhs) == 1 {
+			if c, ok := a.Rhs[0].(*ast.CallExpr); ok && callName(c) == callee && len(a.Lhs) > k && name == "" {
+				name = text(a.Lhs[k])
+			}
+		}
+		return true
+	})
+	return name
+}
+
+func fact(ok bool, name string, observed string) string {
+	if ok {
+		return name
+	}
+	return "NOT(" + name + "): " + observed
+}
+
+// the depth guard, normalised: does it refuse exactly when depth >= MaxDnsLookupDepth ?
+func guardIsGeq(e ast.Node, parent map[ast.Node]ast.Node, depthParam string) bool {
+	b := e.(*ast.BinaryExpr)
+	l, r := text(b.X), text(b.Y)
+	neg := false
+	for p := parent[e]; p != nil; p = parent[p] {
+		if _, ok := p.(*ast.ParenExpr); ok {
+			continue
+		}
+		if u, ok := p.(*ast.UnaryExpr); ok && u.Op == token.NOT {
+			neg = !neg
+			continue
+		}
+		break
+	}
+	geq := (b.Op == token.GEQ && l == depthParam && r == "MaxDnsLookupDepth") || (b.Op == token.LEQ && l == "MaxDnsLookupDepth" && r == depthParam)
+	lss := (b.Op == token.LSS && l == depthParam && r == "MaxDnsLookupDepth") || (b.Op == token.GTR && l == "MaxDnsLookupDepth" && r == depthParam)
+	return (geq && !neg) || (lss && neg)
+}
+
+func parents(fn *ast.FuncDecl) map[ast.Node]ast.Node {
+	m := map[ast.Node]ast.Node{}
+	var stack []ast.Node
+	ast.Inspect(fn.Body, func(n ast.Node) bool {
+		if n == nil {
+			stack = stack[:len(stack)-1]
+			return true
+		}
+		if len(stack) > 0 {
+			m[n] = stack[len(stack)-1]
+		}
+		stack = append(stack, n)
+		return true
+	})
+	return m
+}
+
 func main() {
 	dir := os.Args[1]
-	want := []string{"HandleWithResponseWriter_", "handleWithResponseWriter_", "dialSend", "backgroundRefresh"}
-	found := map[string][]string{}
-	for _, f := range []string{"dns_control.go", "dns_control_optimistic.go"} {
-		file, err := parser.ParseFile(fset, filepath.Join(dir, f), nil, 0)
+	fns := map[string]*ast.FuncDecl{}
+	files, _ := filepath.Glob(filepath.Join(dir, "*.go"))
+	for _, f := range files {
+		if strings.HasSuffix(f, "_test.go") {
+			continue
+		}
+		file, err := parser.ParseFile(fset, f, nil, 0)
 		if err != nil {
 			fmt.Fprintln(os.Stderr, err)
 			os.Exit(1)
 		}
 		for _, d := range file.Decls {
-			if fn, ok := d.(*ast.FuncDecl); ok && fn.Recv != nil && fn.Body != nil {
-				for _, w := range want {
-					if fn.Name.Name == w {
-						found[w] = steps(fn)
-					}
+			if fn, ok := d.(*ast.FuncDecl); ok && fn.Recv != nil && fn.Body != nil && strings.Contains(text(fn.Recv.List[0].Type), "DnsController") {
+				fns[fn.Name.Name] = fn
+			}
+		}
+	}
+	for _, w := range []string{"HandleWithResponseWriter_", "handleWithResponseWriter_", "dialSend", "backgroundRefresh"} {
+		if fns[w] == nil {
+			fmt.Fprintf(os.Stderr, "c07skel: method %s of DnsController not found in %s\n", w, dir)
+			os.Exit(3)
+		}
+	}
+	var facts []string
+
+	// ---- the two handlers: route, then the reject test with eviction and empty answer, then the cache
+	for _, w := range []string{"HandleWithResponseWriter_", "handleWithResponseWriter_"} {
+		fn := fns[w]
+		ev := events(fn)
+		facts = append(facts, fact(ordered(ev, "call:RequestSelect", "reject-test", "call:LookupDnsRespCache_"),
+			w+": request routing, then the reject test, then the first cache lookup", "order differs"))
+		facts = append(facts, fact(ordered(ev, "reject-test", "call:sendRejectWithResponseWriter_", "call:LookupDnsRespCache_"),
+			w+": a rejected route is answered empty before any cache lookup", "order differs"))
+	}
+	{
+		fn := fns["HandleWithResponseWriter_"]
+		ev := events(fn)
+		key := assignedFrom(fn, "responseCacheKey", 0)
+		i := first(ev, "call:sf.Do")
+		ok := i >= 0 && len(ev[i].call.Args) > 0 && key != "" && text(ev[i].call.Args[0]) == key
+		obs := "no singleflight"
+		if i >= 0 && len(ev[i].call.Args) > 0 {
+			obs = "key=" + text(ev[i].call.Args[0])
+		}
+		facts = append(facts, fact(ok, "HandleWithResponseWriter_: resolution is coalesced under the response cache key (scope included)", obs))
+		facts = append(facts, fact(ordered(ev, "call:LookupDnsRespCache_", "call:sf.Do"), "HandleWithResponseWriter_: cache lookup before the coalesced resolution", "order differs"))
+	}
+	{
+		fn := fns["handleWithResponseWriter_"]
+		ev := events(fn)
+		ps := paramNames(fn)
+		i := first(ev, "call:dialSend")
+		ok := i >= 0 && len(ev[i].call.Args) >= 10 && text(ev[i].call.Args[1]) == "0" && len(ps) >= 9 &&
+			text(ev[i].call.Args[5]) == ps[6] && text(ev[i].call.Args[8]) == ps[7]
+		facts = append(facts, fact(ok && ordered(ev, "call:LookupDnsRespCache_", "call:dialSend"),
+			"handleWithResponseWriter_: after a cache miss, dialSend at depth 0 with the routed upstream under the request's response cache key", "arguments or order differ"))
+	}
+	// ---- dialSend
+	{
+		fn := fns["dialSend"]
+		ev := events(fn)
+		ps := paramNames(fn)
+		par := parents(fn)
+		depthParam, keyParam := "", ""
+		if len(ps) >= 10 {
+			depthParam, keyParam = ps[1], ps[8]
+		}
+		g := first(ev, "depth-guard")
+		facts = append(facts, fact(g >= 0 && guardIsGeq(ev[g].node, par, depthParam), "dialSend: refuses when the depth has reached MaxDnsLookupDepth (>=)", func() string {
+			if g < 0 {
+				return "no guard"
+			}
+			return text(ev[g].node)
+		}()))
+		facts = append(facts, fact(ordered(ev, "depth-guard", "call:forwardWithFallback", "call:dnsResponseAnswersRequest", "call:ResponseSelect"),
+			"dialSend: depth guard, forward, question check, response routing — in this order", "order differs"))
+		facts = append(facts, fact(ordered(ev, "call:ResponseSelect", "case-response-reject", "empty-answer"),
+			"dialSend: a response routed to reject loses its answer section", "missing or reordered"))
+		next := assignedFrom(fn, "ResponseSelect", 1)
+		okRe := false
+		obs := "no re-ask"
+		for _, e := range ev {
+			if e.kind == "call:dialSend" && len(e.call.Args) >= 10 {
+				b, isBin := e.call.Args[1].(*ast.BinaryExpr)
+				okRe = isBin && b.Op == token.ADD && ((text(b.X) == depthParam && text(b.Y) == "1") || (text(b.Y) == depthParam && text(b.X) == "1")) &&
+					next != "" && text(e.call.Args[5]) == next && text(e.call.Args[8]) == keyParam
+				obs = "reask(" + text(e.call.Args[1]) + "," + text(e.call.Args[5]) + "," + text(e.call.Args[8]) + ")"
+			}
+		}
+		facts = append(facts, fact(okRe, "dialSend: a re-ask goes one level deeper, to the upstream the response routing selected, under the same cache key", obs))
+		okSt, n := true, 0
+		for _, e := range ev {
+			if e.kind == "call:NormalizeAndCacheDnsResp_" {
+				n++
+				if len(e.call.Args) != 2 || text(e.call.Args[1]) != keyParam {
+					okSt = false
 				}
 			}
 		}
+		facts = append(facts, fact(okSt && n > 0, "dialSend: every store is under the cache key of the original request", fmt.Sprintf("%d stores", n)))
+		facts = append(facts, fact(ordered(ev, "call:ResponseSelect", "call:NormalizeAndCacheDnsResp_"), "dialSend: nothing is stored before the response is routed", "order differs"))
 	}
-	fmt.Println("/-! GENERATED by /verif/translators/c07skel from control/dns_control.go and dns_control_optimistic.go — do not edit. -/")
+	// ---- backgroundRefresh
+	{
+		fn := fns["backgroundRefresh"]
+		ev := events(fn)
+		ps := paramNames(fn)
+		i := first(ev, "call:dialSend")
+		ok := i >= 0 && len(ev[i].call.Args) >= 10 && text(ev[i].call.Args[1]) == "0" && len(ps) >= 5 &&
+			text(ev[i].call.Args[5]) == ps[4] && text(ev[i].call.Args[8]) == ps[0]
+		facts = append(facts, fact(ok && ordered(ev, "reject-test", "call:dialSend"),
+			"backgroundRefresh: nothing for a rejected route; else dialSend at depth 0 with the upstream routed for the stale entry, under that entry's key", "arguments or order differ"))
+	}
+
+	fmt.Println("/-! SNAPSHOT of the output of /verif/translators/c07skel for control/dns_control*.go — regenerate with")
+	fmt.Println("`go run main.go /repo/control`; checks/c07.py compares the tree under test with this file on every run. -/")
 	fmt.Println("namespace DaeVerif.C07.Gen")
-	for _, w := range want {
-		fmt.Printf("\ndef steps_%s : List String := [", w)
-		for i, s := range found[w] {
-			if i > 0 {
-				fmt.Print(",")
-			}
-			fmt.Printf("\n  %q", s)
+	fmt.Print("\ndef controllerFacts : List String := [")
+	for i, s := range facts {
+		if i > 0 {
+			fmt.Print(",")
 		}
-		fmt.Println("]")
+		fmt.Printf("\n  %q", s)
 	}
+	fmt.Println("]")
 	fmt.Println("\nend DaeVerif.C07.Gen")
 }
